@@ -713,8 +713,10 @@ pub struct StressPart {
 pub fn stress_parts(id: &str) -> Vec<StressPart> {
     let p = |kind, quick, thorough, async_pct| StressPart { kind, quick, thorough, async_pct };
     match id {
-        "C01" | "C02" | "C06" | "C08" | "C17" => vec![p(Kind::Invariants, 640, 12000, 25)],
+        "C02" => vec![p(Kind::Invariants, 640, 12000, 25), p(Kind::Validated, 200, 4000, 25)],
+        "C01" | "C06" | "C08" | "C17" => vec![p(Kind::Invariants, 640, 12000, 25)],
         "C05" => vec![p(Kind::Reclaim, 96, 2000, 50)],
+        "C09" => vec![p(Kind::Validated, 320, 6000, 25)],
         "C10" => vec![p(Kind::Barrier, 640, 12000, 25), p(Kind::WaitRace, 640, 12000, 25)],
         "C12" => vec![p(Kind::Close, 960, 16000, 30)],
         "C20" => vec![p(Kind::Config, 960, 16000, 30)],
